@@ -1,9 +1,10 @@
 SPECIFICATION Spec
 CONSTANTS
-  Params <- MCParams2
-  Vals <- MCVals2
+  Params <- ParamsLife
+  Vals <- ValsL
   MaxB = 2
   MaxRows = 3
+  Ops <- AllOps
   Variant = "chan"
   Depth = 0
 INVARIANT MomentsDef
